@@ -401,6 +401,12 @@ def lazy_oracle(ctx):
 def lazy_cases(draw):
     members, kinds = draw(member_lists(min_size=1, max_size=5))
     flags = [k in LAZY_OK and n is not None and draw(st.booleans()) for (n, s), k in zip(members, kinds)]
+    if draw(st.integers(0, 5)) == 0:
+        # a lazily parsed counted array whose elements are sized by an (eagerly parsed) earlier member: measured in the scope the
+        # elements will be parsed in - the documented expansion of PrefixedArray is one scope of its own
+        members = members + [["q", B1], ["r", ["parray", B1, ["struct", [["d", ["bytes", ["bin", "&", ["this", ["_", "_", "q"], "attr"], ["const", 3]]]]]]]]]
+        kinds = kinds + ["fixed", "prefixed"]
+        flags = flags + [False, True]
     params = dict(n=draw(st.integers(0, 4)))
     data = build_input(draw, ["struct", members], params)
     if data is None:
